@@ -66,7 +66,7 @@ def collect(chk, pid, jobs):
     for _tag, tid, line, channel, bad in rows['CLAUSE']:
         for clause in sorted(bad['set']):
             if clause.startswith(pid + '.'):
-                job = byid[tid]
+                job = byid[tid] if tid in byid else byid[tid - 5000000]
                 sig = f"{channel}:hs={job['hs']}:bits={''.join('1' if job['bits'][k] else '0' for k in ('p1', 'sigA', 'p4', 'sigB', 'echo'))}:lens={job['lens']}"
                 chk.add_violation(clause, sig, {'trace': tid, 'line': line, 'chunks': job.get('chunks') or job.get('cuts')}, {'job': job, 'line': line})
 
@@ -106,6 +106,10 @@ def run(pid, tier, seed, replay=None):
     for case in plain:
         for ch in CHANNELS + ['recv']:
             add(ch, False, GOOD, case['lens'], chunks=case['chunks'])
+        # the same chunking while a second connection of the same protocol class is served in between (two traces per job)
+        for ch in CHANNELS:
+            if len(case['lens']) >= 2:
+                add(ch, False, GOOD, case['lens'], chunks=case['chunks'], pair=True)
     n_all_chunkings = len(plain)
     # (2) handshake: simulated chunkings with every validity assignment
     sim = gen(chk, 'sim_hs', consts('Lens2', True, 'AllBits'), sim=(6000 if thorough else 1200, 40), seed=seed)
